@@ -98,13 +98,13 @@ type namesWorld struct {
 }
 
 type namesStats struct {
-	mu                            sync.Mutex
-	real, token, allowed, denied  int64
-	reserved                      int64 // allowed by the predicate but refused for the underscore
-	pure, jsonDesc, trusts        int64
-	jsonDecoded, jsonRefused      int64
-	reported                      map[string]int
-	dispatchSeen                  map[string]bool
+	mu                           sync.Mutex
+	real, token, allowed, denied int64
+	reserved                     int64 // allowed by the predicate but refused for the underscore
+	pure, jsonDesc, trusts       int64
+	jsonDecoded, jsonRefused     int64
+	reported                     map[string]int
+	dispatchSeen                 map[string]bool
 }
 
 type namesCase struct {
@@ -212,7 +212,10 @@ func (nw *namesWorld) report(r *vk.Run, class, key string, nc namesCase) {
 }
 
 // matrix: every caller x every method of N, dynamically and through tokens.
-func (nw *namesWorld) matrix(r *vk.Run, suffix string) {
+func (nw *namesWorld) matrix(r *vk.Run, suffix string) { nw.matrixOnly(r, suffix, "", "") }
+
+// matrixOnly: only = caller permissions (String()) and method id to restrict the matrix to (replays).
+func (nw *namesWorld) matrixOnly(r *vk.Run, suffix, onlyCaller, onlyMethod string) {
 	pw := nw.pw
 	type cell struct {
 		cs  callerSpec
@@ -221,11 +224,18 @@ func (nw *namesWorld) matrix(r *vk.Run, suffix string) {
 	}
 	var cells []cell
 	for _, cs := range nw.callers {
+		if onlyCaller != "" && cs.String() != onlyCaller {
+			continue
+		}
 		for _, m := range nMethods {
-			cells = append(cells, cell{cs, m, -1})
+			if onlyMethod == "" || m.id() == onlyMethod {
+				cells = append(cells, cell{cs, m, -1})
+			}
 		}
 		for i, m := range nw.toks {
-			cells = append(cells, cell{cs, m, i})
+			if onlyMethod == "" || m.id() == onlyMethod {
+				cells = append(cells, cell{cs, m, i})
+			}
 		}
 	}
 	r.Parallel(len(cells), func(i int) {
@@ -277,7 +287,8 @@ func (nw *namesWorld) matrix(r *vk.Run, suffix string) {
 			r.Outcome(sub + ":" + got)
 			return
 		}
-		if got == "reserved-name" && strings.HasPrefix(x.m.Name, "_") {
+		if got != "allowed" && !ran && strings.HasPrefix(x.m.Name, "_") {
+			// names starting with an underscore are reserved for the ledger's own calls: refused whatever the permissions say
 			nw.st.mu.Lock()
 			nw.st.reserved++
 			nw.st.mu.Unlock()
@@ -463,6 +474,12 @@ func (nw *namesWorld) trusts(r *vk.Run) {
 		if err := json.Unmarshal(b, m2); err != nil {
 			return m
 		}
+		// and through the stored form, as a node loads it after a restart
+		m3 := new(manifest.Manifest)
+		if it, err := m2.ToStackItem(); err == nil && m3.FromStackItem(it) == nil {
+			return m3
+		}
+		r.Violation("permission:trusts:stored-form-roundtrip:"+v.name+":"+src.Name, "the manifest variant does not survive ToStackItem/FromStackItem")
 		return m2
 	}
 	targets := map[string]*manifest.Manifest{}
@@ -514,20 +531,60 @@ func (nw *namesWorld) info() map[string]any {
 		ms = append(ms, s)
 	}
 	return map[string]any{
-		"callee_methods":                        ms,
-		"method_lists":                          ml,
-		"callers":                               len(nw.callers),
-		"real_calls":                            nw.st.real,
-		"token_calls":                           nw.st.token,
-		"allowed_and_right_overload_ran":        nw.st.allowed,
-		"denied_and_callee_not_executed":        nw.st.denied,
+		"callee_methods":                         ms,
+		"method_lists":                           ml,
+		"callers":                                len(nw.callers),
+		"real_calls":                             nw.st.real,
+		"token_calls":                            nw.st.token,
+		"allowed_and_right_overload_ran":         nw.st.allowed,
+		"denied_and_callee_not_executed":         nw.st.denied,
 		"allowed_by_predicate_but_name_reserved": nw.st.reserved,
-		"overload_result_flags_seen":            ds,
-		"pure_evaluations":                      nw.st.pure,
-		"json_descriptor_forms":                 nw.st.jsonDesc,
-		"json_descriptor_forms_decoded":         nw.st.jsonDecoded,
-		"json_descriptor_forms_refused":         nw.st.jsonRefused,
-		"trusts_evaluations":                    nw.st.trusts,
-		"violations_by_class_incl_hidden":       nw.st.reported,
+		"overload_result_flags_seen":             ds,
+		"pure_evaluations":                       nw.st.pure,
+		"json_descriptor_forms":                  nw.st.jsonDesc,
+		"json_descriptor_forms_decoded":          nw.st.jsonDecoded,
+		"json_descriptor_forms_refused":          nw.st.jsonRefused,
+		"trusts_evaluations":                     nw.st.trusts,
+		"violations_by_class_incl_hidden":        nw.st.reported,
+	}
+}
+
+func replayNames(r *vk.Run, nc namesCase) {
+	pw, err := newPermWorld()
+	if err != nil {
+		fmt.Println("CHECK-ERROR:", err)
+		return
+	}
+	defer func() { pw.n.Close() }()
+	nw, err := pw.setupNames()
+	if err != nil {
+		fmt.Println("CHECK-ERROR:", err)
+		return
+	}
+	suffix := ""
+	if strings.HasSuffix(nc.Sub, "-after-restart") {
+		suffix = "-after-restart"
+		m, err := pw.n.Reopen()
+		if err != nil {
+			fmt.Println("CHECK-ERROR:", err)
+			return
+		}
+		pw.n = m
+	}
+	for i := 0; i < 5; i++ {
+		before := r.NViolations()
+		nw.st.reported = map[string]int{}
+		switch {
+		case strings.HasPrefix(nc.Sub, "names-real"), strings.HasPrefix(nc.Sub, "names-token"):
+			nw.matrixOnly(r, suffix, nc.Caller.String(), nc.Method)
+		case nc.Sub == "names-pure":
+			nw.pure(r)
+		case nc.Sub == "json-desc":
+			nw.jsonDesc(r)
+		default:
+			nw.trusts(r)
+		}
+		_ = before
+		fmt.Printf("replay %d: %s %s -> N.%s: mismatches in this pass by class: %v\n", i, nc.Sub, nc.Caller.String(), nc.Method, nw.st.reported)
 	}
 }
